@@ -10,6 +10,8 @@
 //! setting) with BOTH solvers and checks every clause of the statement at the reported (w, b).
 //! Round 2 (jobs `ways-*`): on a family of small cases the way the parameter struct is constructed is a
 //! further choice — every order of the chained builder calls and the struct literal (check.rs, RIDGE_WAYS).
+//! Round 2, second extension (jobs `grid-*`): a complete grid of row and column counts beyond the small structured sizes
+//! (n = 18..80 including 64, 65, 67, 79; p in {1,2,3,5,6,7,8}) on a 6-pair subset of the scale/mean patterns.
 
 mod check;
 mod dd;
@@ -30,6 +32,10 @@ const WAYS_FLOOR_NONZERO: u64 = 140_000;
 const WAYS_FLOOR_F32: u64 = 60_000;
 const WAYS_FLOOR_LITERAL: u64 = 25_000;
 const WAYS_FLOOR_OLS: u64 = 2_300;
+
+// floors of the row/column-count grid (order: see plan().floors): about a third of what the quick tier reaches
+// (seed 0: 72 873 / 17 816 / 7 784 / 21 816 / 31 724 / 29 764 / 14 736 / 12 033; seeds 0..7 within 10 %)
+const GRID_FLOORS: [u64; 8] = [24_000, 6_000, 2_500, 7_000, 10_000, 10_000, 4_500, 3_500];
 
 const N_CONFIGS: usize = 9; // 0 = OLS; 1..=4 ridge normalize=on, alpha index; 5..=8 ridge normalize=off
 
@@ -206,20 +212,54 @@ fn lattice_case(job: &Job) {
 /// Structured designs: the job fixes (design, p, n); width, scale pattern, mean pattern, target
 /// and configuration are chosen.
 fn structured_case(job: &Job) {
-    let (p, n) = (job.u("p"), job.u("n"));
     let design = job.s("design").to_string();
-    let seed = job.u("seed") as u64;
-    let rot = (seed % 3) as usize;
     let w = if mc::choose(2) == 0 { W::F64 } else { W::F32 };
     let sp = mc::choose(6);
     let mp = mc::choose(6);
-    let base = gen::base_design(&design, n, p, seed);
+    structured_exec(job, &design, w, sp, mp, false);
+}
+
+/// The (scale pattern, mean pattern) pairs of the row/column-count grid (indices into the 6 x 6 patterns of the
+/// structured space): unit scales / zero means; unit scales / means all 5; cyclic scales from 1 / zero means;
+/// all 1e3 / cyclic means from 5; cyclic scales from 1e-2 / cyclic means from 0; all 1e-2 / zero means.
+/// Pairs 0 and 1 (equal column scales, so that cond stays within the f32 limit) are run in f32 as well: a third.
+const GRID_PATTERNS: [(usize, usize); 6] = [(0, 0), (0, 1), (3, 0), (2, 4), (4, 3), (1, 0)];
+const GRID_F32_PATTERNS: usize = 2;
+/// every target of the structured space (the task asked for 2; all 4 cost 3 CPU-seconds in total)
+const GRID_TARGETS: usize = gen::N_YTYPES;
+const GRID_PS_QUICK: [usize; 7] = [1, 2, 3, 5, 6, 7, 8];
+const GRID_NS: [usize; 9] = [18, 23, 33, 47, 64, 65, 67, 79, 80];
+/// thorough only: row counts beyond the structured space of round 1 (which stops at n = 80)
+const GRID_NS_BEYOND: [usize; 7] = [81, 95, 96, 97, 127, 128, 129];
+
+fn grid_ns(p: usize) -> Vec<usize> {
+    let mut v = vec![p + 1];
+    v.extend(GRID_NS.iter().filter(|n| **n > p + 1));
+    v
+}
+
+/// Row/column-count grid (round 2, second extension): the job fixes (p, n); design, (scale, mean) pattern pair, width,
+/// target and configuration are chosen.
+fn grid_case(job: &Job) {
+    let design = gen::DESIGNS[mc::choose(gen::DESIGNS.len())];
+    let k = mc::choose(GRID_PATTERNS.len());
+    let w = if k < GRID_F32_PATTERNS && mc::choose(2) == 1 { W::F32 } else { W::F64 };
+    let (sp, mp) = GRID_PATTERNS[k];
+    structured_exec(job, design, w, sp, mp, true);
+}
+
+/// One structured execution; `grid` = true for the jobs of the row/column-count grid (own counters).
+fn structured_exec(job: &Job, design: &str, w: W, sp: usize, mp: usize, grid: bool) {
+    let (p, n) = (job.u("p"), job.u("n"));
+    let seed = job.u("seed") as u64;
+    let rot = (seed % 3) as usize;
+    let base = gen::base_design(design, n, p, seed);
     let x_raw: Mat = base
         .iter()
         .map(|r| (0..p).map(|j| gen::MEANS[gen::pattern(mp, j, rot)] + gen::SCALES[gen::pattern(sp, j, rot)] * r[j]).collect())
         .collect();
     let xi = gen::xinfo(&x_raw, w, None);
-    let yt = mc::choose(gen::N_YTYPES);
+    let yt = mc::choose(if grid { GRID_TARGETS } else { gen::N_YTYPES });
     let y: Vec<f64> = gen::structured_y(yt, &base, n, p, seed).into_iter().map(|v| w.round(v)).collect();
     let cfg = mc::choose(N_CONFIGS);
     let way = choose_way(job, cfg);
@@ -237,11 +277,49 @@ fn structured_case(job: &Job) {
         mc::count("structured_nonunit_column_scales");
     }
     let obs = run_config(&xi, &y, cfg, way, &label);
+    if grid {
+        grid_counters(&xi, cfg, sp, mp, obs.is_some());
+    }
     mc::describe(|| {
-        json!({"space": "structured", "parameters_constructed_by": way.map(|k| check::way_name(cfg == 0, k)), "observed": obs_json(&obs), "width": w.name(), "design": design, "n": n, "p": p, "column_scales": sname, "column_means": mname,
+        json!({"space": if grid { "structured (row/column-count grid)" } else { "structured" }, "parameters_constructed_by": way.map(|k| check::way_name(cfg == 0, k)), "observed": obs_json(&obs), "width": w.name(), "design": design, "n": n, "p": p, "column_scales": sname, "column_means": mname,
                "target": gen::ytype_name(yt), "config": config_name(cfg), "cond_X1": xi.kappa_a(), "cond_X": xi.kappa_x(), "max_mean_over_std": xi.kappa_s - 1.0,
                "X_first_rows": xi.x.iter().take(4).collect::<Vec<_>>(), "y_first": y.iter().take(4).collect::<Vec<_>>()})
     });
+}
+
+/// Non-vacuity of the row/column-count grid: in-domain executions that reached the oracle, by the classes the family
+/// was added for.
+fn grid_counters(xi: &XInfo, cfg: usize, sp: usize, mp: usize, in_domain: bool) {
+    if !in_domain {
+        mc::count("grid_skipped_outside_domain_cond_or_constant_column");
+        return;
+    }
+    let (n, p) = (xi.n, xi.p);
+    mc::count("grid_cases");
+    if xi.w == W::F32 {
+        mc::count("grid_cases_f32");
+    }
+    if cfg == 0 {
+        mc::count("grid_ols_cases");
+    }
+    if n > 64 && n % 2 == 1 {
+        mc::count("grid_cases_rows_over_64_odd");
+    }
+    if n > 32 && n % 4 != 0 && p % 4 != 0 {
+        // neither count is a multiple of the usual block sizes: remainder rows meet remainder columns
+        mc::count("grid_cases_rows_over_32_n_and_p_not_multiples_of_4");
+    }
+    if p >= 5 && n % 4 != 0 {
+        mc::count("grid_cases_p_5_to_8_n_not_multiple_of_4");
+    }
+    if sp >= 3 {
+        mc::count("grid_cases_different_column_scales");
+    }
+    // standardising path with non-zero column means outside the D1 class: a wrong column mean / variance / centred
+    // Gram matrix is visible here under a site key that is not a known finding
+    if (1..=4).contains(&cfg) && n > 16 && mp != 0 && xi.kappa_s - 1.0 <= check::LARGE_MEAN_OVER_STD {
+        mc::count("grid_ridge_norm_on_rows_over_16_nonzero_means_within_64std");
+    }
 }
 
 fn lattice_jobs(jobs: &mut Vec<Job>, p: usize, n: usize, k: usize, nfix: usize, widths: &[&str], seed: u64) {
@@ -334,6 +412,23 @@ impl Harness for C07 {
                 }
             }
         }
+        // Round 2, second extension — row/column-count grid: quick p in {1,2,3,5,6,7,8} x n in {p+1,18,23,33,47,64,65,67,79,80},
+        // 4 designs x 6 (scale, mean) pattern pairs x 4 targets x 9 configurations, f64 (+ f32 for 2 of the 6 pairs);
+        // thorough: p = 1..8, and additionally the FULL structured space (36 pattern pairs, 4 targets, both widths) at the
+        // row counts n in {81,95,96,97,127,128,129} beyond the n <= 80 of round 1
+        let grid_ps: Vec<usize> = if t { (1..=8).collect() } else { GRID_PS_QUICK.to_vec() };
+        for p in grid_ps {
+            for n in grid_ns(p) {
+                structured.push((n * p * 4, Job::new(format!("grid-p{}-n{}", p, n), json!({"kind": "grid", "p": p, "n": n, "seed": seed}))));
+            }
+            if t {
+                for n in GRID_NS_BEYOND {
+                    for d in gen::DESIGNS {
+                        structured.push((n * p, Job::new(format!("grid-beyond-{}-p{}-n{}", d, p, n), json!({"kind": "str", "design": d, "p": p, "n": n, "seed": seed}))));
+                    }
+                }
+            }
+        }
         structured.sort_by_key(|(c, _)| *c);
         jobs.extend(structured.into_iter().map(|(_, j)| j));
         let jobs = {
@@ -375,6 +470,15 @@ impl Harness for C07 {
                 ("ways_ridge_literal_cases", WAYS_FLOOR_LITERAL),
                 ("ways_ols_builder_cases", WAYS_FLOOR_OLS),
                 ("ways_ols_literal_cases", WAYS_FLOOR_OLS),
+                // row/column-count grid: about a third of what the quick tier of seed 0 reaches
+                ("grid_cases", GRID_FLOORS[0]),
+                ("grid_cases_f32", GRID_FLOORS[1]),
+                ("grid_ols_cases", GRID_FLOORS[2]),
+                ("grid_cases_rows_over_64_odd", GRID_FLOORS[3]),
+                ("grid_cases_rows_over_32_n_and_p_not_multiples_of_4", GRID_FLOORS[4]),
+                ("grid_cases_p_5_to_8_n_not_multiple_of_4", GRID_FLOORS[5]),
+                ("grid_cases_different_column_scales", GRID_FLOORS[6]),
+                ("grid_ridge_norm_on_rows_over_16_nonzero_means_within_64std", GRID_FLOORS[7]),
             ],
             bounds: json!({
                 "builders": mc_sc::builders::BOUNDS,
@@ -386,6 +490,9 @@ impl Harness for C07 {
                 },
                 "structured": format!("designs {:?} x p=1..8 x n in {} x 6 column-scale patterns over {{1,1e-2,1e3}} x 6 column-mean patterns over {{0,5,100}} x 4 targets x f64/f32",
                     gen::DESIGNS, if t { "p+1..80 (every n)" } else { "{p+1,p+2,2p+1,3p+2,20,47,80}" }),
+                "row_column_count_grid": format!("round 2, second extension (jobs grid-*): designs {:?} x p in {} x n in {{p+1,18,23,33,47,64,65,67,79,80}} x 6 (column-scale, column-mean) pattern pairs [all 1/all 0; all 1/all 5; cyclic scales from 1/all 0; all 1e3/cyclic means from 5; cyclic scales from 1e-2/cyclic means from 0; all 1e-2/all 0] x 4 targets x all 9 configurations (OLS both solvers; ridge 4 alpha x normalize x both solvers), f64, and f32 for the first two pattern pairs (a third); domain (cond <= limit by the oracle's Jacobi singular values, non-constant columns) decided as for the structured space, skipped designs counted{}",
+                    gen::DESIGNS, if t { "1..8" } else { "{1,2,3,5,6,7,8}" },
+                    if t { "; thorough additionally the full structured space (36 pattern pairs x 4 targets x f64/f32 x 9 configurations) at n in {81,95,96,97,127,128,129}, p=1..8 (jobs grid-beyond-*)" } else { "" }),
                 "configurations": "OLS {QR,SVD}; ridge alpha in {1e-3,0.1,1,100} x normalize {on,off} x {Cholesky,SVD}",
                 "parameter_construction": format!("round 1 spaces above: one fixed way (OLS: default().with_solver(s); ridge: struct literal). Round-2 family (jobs ways-*): every configuration above (16 ridge: 4 alpha x normalize x solver; 2 OLS) x EVERY way of constructing the parameter struct — ridge 7 ways: Default::default() followed by with_alpha / with_normalize / with_solver in each of the 3! = 6 orders, and the struct literal; OLS 2 ways: default().with_solver(s) and the struct literal — on: lattice every X over {{0,1,-1,2}} {}, every y over {{0,-1,2}}^n, f64 and f32; structured designs {:?} x {} x 6 scale patterns x 6 mean patterns x 4 targets x f64/f32. Clauses: all of the above for the REQUESTED configuration, plus the constructed struct carries the requested solver / alpha / normalize.",
                     if t { "p=1 n=2..4, p=2 n=3" } else { "p=1 n=2..3" }, gen::DESIGNS, if t { "p=1..5 x n in {p+1,p+2,2p+1,3p+2,20,47,80}" } else { "p=1..3 x n in {p+1,3p+2}" }),
@@ -404,6 +511,7 @@ impl Harness for C07 {
         }
         match job.kind() {
             "lat" => lattice_case(job),
+            "grid" => grid_case(job),
             "str" => structured_case(job),
             other => panic!("unknown job kind {}", other),
         }
